@@ -319,8 +319,11 @@ func Run(r *ev.Run) {
 				}
 			}
 			if fails == 5 {
-				r.Violation(key, what, c)
-				oc = "VIOLATION " + key
+				if r.Violation(key, what, c) {
+					oc = "VIOLATION " + key
+				} else {
+					oc = "known-finding " + key
+				}
 			} else {
 				r.Add("unstable", 1)
 				oc = "unstable"
